@@ -564,7 +564,9 @@ class _FuncEval:
                 else:
                     self.assign(e, mk_proj(v, k), st, node)
         elif isinstance(t, ast.Attribute):
-            self.effect("store_attr", self.expr(t.value, st), t.attr, v, st, node)
+            base = self.expr(t.value, st)
+            self.effect("store_attr", base, t.attr, v, st, node)
+            st.env.vars[("@attr", base, t.attr)] = v  # later reads of the same attribute in this function see v
         elif isinstance(t, ast.Subscript):
             self.effect("store_sub", self.expr(t.value, st), self.index(t.slice, st), v, st, node)
         else:
@@ -906,6 +908,17 @@ class _FuncEval:
                     return ("const", c.qual.split(".", 2)[-1] if c.qual.count(".") >= 2 else c.name)
         if k == "ite":
             return mk_ite(base[1], self.attr(base[2], a), self.attr(base[3], a))
+        if k == "self":
+            c = self.prog.classes.get(base[1])
+            if c is not None:
+                found = c.find_attr(a)
+                if found is not None:
+                    owner, v, ann = found
+                    from .srcmodel import ann_is_classvar
+                    is_field = ann is not None and not ann_is_classvar(ann) and owner.is_dataclass()
+                    if not is_field and a not in owner.methods and not isinstance(v, ast.Constant):
+                        # a class-level object read through the instance: shared by all instances
+                        return ("cattr", owner.qual, a)
         return ("attr", base, a)
 
     def expr(self, n: Optional[ast.AST], st: State, stmt_ctx: bool = False) -> Term:
@@ -916,7 +929,11 @@ class _FuncEval:
         if isinstance(n, ast.Name):
             return self.name(n.id, st)
         if isinstance(n, ast.Attribute):
-            return self.attr(self.expr(n.value, st), n.attr, n)
+            base = self.expr(n.value, st)
+            stored = st.env.get(("@attr", base, n.attr))
+            if stored is not None:
+                return stored
+            return self.attr(base, n.attr, n)
         if isinstance(n, ast.Call):
             return self.call(n, st, stmt_ctx)
         if isinstance(n, ast.BinOp):
